@@ -1085,6 +1085,24 @@ fn sm_record(out_path: &str, focus: &str, runs: usize, len: usize) {
                 tag(&mut sv, o);
                 out.put(&sv);
             }
+            // twin histories: now and then compare a region of this archive with a region of the other one
+            if twin && rng.chance(1, 20) {
+                let osz = objs[1 - o].0.size() as i64;
+                let mut cmp = ev("equal_regions2", 4 * rng.below((p["data"].as_array().unwrap().len() / 4).max(1)) as i64,
+                                 [0i64, 4, 8, 5][rng.below(4)], false, json!([]), 4 * rng.below((osz / 4).max(1) as usize) as i64, "");
+                tag(&mut cmp, o);
+                let (me, other) = (&objs[o].0, &objs[1 - o].0);
+                let (aa, tt, nn) = (to_usize(cmp["a"].as_i64().unwrap()), to_usize(cmp["t"].as_i64().unwrap()), to_usize(cmp["n"].as_i64().unwrap()));
+                cmp["res"] = match catch(|| me.assert_equal_regions(other, aa, tt, nn)) {
+                    Ok(r) => unit_of(r),
+                    Err(pn) => json!({"panic": pn}),
+                };
+                cmp["pos"] = json!(0);
+                cmp["post"] = sm_project(me, &e);
+                out.put(&cmp);
+                continue;
+            }
+            let a = &mut objs[o].0;
             let mut evv = random_event(&mut rng, &p, focus);
             tag(&mut evv, o);
             match catch(|| sm_apply(a, &evv)) {
